@@ -35,6 +35,31 @@ type Scan struct {
 
 // isPhaseFilter recognises processHints' `timestamp_ms % step = 0 OR timestamp_ms % step >= step - range`: a further
 // restriction inside the window, not a window bound.
+// phaseOnNs: every modulo of the filter is taken of the bare column timestamp_ns
+func phaseOnNs(e chsql.Expr) bool {
+	f, ok := e.(*chsql.FuncCall)
+	if !ok {
+		return false
+	}
+	if f.Name == "or" || f.Name == "and" {
+		for _, a := range f.Args {
+			if !phaseOnNs(a) {
+				return false
+			}
+		}
+		return len(f.Args) > 0
+	}
+	if len(f.Args) != 2 {
+		return false
+	}
+	m, ok := f.Args[0].(*chsql.FuncCall)
+	if !ok || m.Name != "modulo" || len(m.Args) != 2 {
+		return false
+	}
+	id, ok := m.Args[0].(*chsql.Ident)
+	return ok && id.Parts[len(id.Parts)-1] == "timestamp_ns"
+}
+
 func isPhaseFilter(e chsql.Expr) bool {
 	f, ok := e.(*chsql.FuncCall)
 	if !ok {
@@ -359,6 +384,12 @@ func analyseScan(ref *chsql.TableRef) Scan {
 		if isPhaseFilter(c) {
 			sc.Phase = append(sc.Phase, c.String())
 			pf, ok := parsePhaseFilter(c, ref)
+			if !ok && phaseOnNs(c) {
+				// the step filter of the downsample planner (metrics_15s, position of the 15 s bucket start in nanoseconds): another
+				// mechanism (re-timed points, epoch-aligned buckets), specified and judged by PromDown.tla (extra check X08); here
+				// it is kept as text and only ever narrows the read
+				continue
+			}
 			if !ok || sc.PhaseF != nil {
 				sc.Unknown = append(sc.Unknown, "step filter of a shape the extractor does not understand: "+c.String())
 				continue
